@@ -1,6 +1,7 @@
 """C11 — source text is read as written: precedence, associativity, literal fidelity."""
 import itertools
 import json
+import re
 import os
 import shutil
 
@@ -292,6 +293,7 @@ def check(run):
         broken.append(b)
     # ---- 3. literals
     lit_stats = literals(run, rng, wits)
+    lit_stats["literal_positions"] = literal_positions(run, wits)
     stats["literals"] = lit_stats
     # ---- known findings
     for k in run.known:
@@ -447,6 +449,48 @@ def walk(t):
 
 # ---- literals ----------------------------------------------------------------------------------------
 ALPH = list("ab /\\\"'{}%\n\t\r") + ["\x01", "\x08", "\x0c", "\x1f", "é", "日", " ", "😀"]
+
+
+LIT_POSITIONS = [
+    "fn main() {{ let v = {L}; () }}", "fn main() {{ {L} }}", "fn main() {{ {L}; () }}", "fn main() {{ let _ = 1; {L} }}", "fn f0() -> int32 {{ {L} }}\nfn main() {{ () }}",
+    "fn main() {{ f({L}) }}", "fn main() {{ f(1, {L}) }}", "fn main() {{ f({L}, 1) }}", "fn main() {{ f(g({L})) }}", "fn main() {{ T::f({L}) }}", "fn main() {{ x.m({L}) }}", "fn main() {{ K({L}) }}",
+    "fn main() {{ ({L}, 1) }}", "fn main() {{ (1, {L}) }}", "fn main() {{ (1, {L}, 2) }}", "fn main() {{ [{L}, {L}] }}", "fn main() {{ [1, {L}] }}",
+    "fn main() {{ S {{ a: {L}, b: 1 }} }}", "fn main() {{ S {{ a: 1, b: {L} }} }}",
+    "fn main() {{ if c {{ {L} }} else {{ {L} }} }}", "fn main() {{ if {L} {{ 1 }} else {{ 2 }} }}", "fn main() {{ if c {{ 1 }} else {{ let _ = 2; {L} }} }}",
+    "fn main() {{ while {L} {{ () }} }}", "fn main() {{ while c {{ {L} }} }}", "fn main() {{ while c {{ let _ = {L}; () }} }}",
+    "fn main() {{ match {L} {{ _ => 1 }} }}", "fn main() {{ match x {{ _ => {L} }} }}", "fn main() {{ match x {{ 0 => {L}, _ => {L} }} }}", "fn main() {{ match x {{ 0 => {{ {L} }}, _ => 1 }} }}",
+    "fn main() {{ |y| {L} }}", "fn main() {{ let g = |y| {L}; () }}", "fn main() {{ let g = |y| {{ let _ = 1; {L} }}; () }}", "fn main() {{ let g = || {L}; () }}",
+    "fn main() {{ x + {L} }}", "fn main() {{ {L} + x }}", "fn main() {{ x == {L} }}", "fn main() {{ x && {L} }}", "fn main() {{ !{L} }}", "fn main() {{ ({L}) }}", "fn main() {{ (({L})) }}",
+    "fn main() {{ go f({L}) }}", "fn main() {{ let v: T = {L}; () }}", "fn main() {{ let (a, b) = ({L}, {L}); () }}", "fn main() {{ ref({L}) }}", "fn main() {{ f(|y| {L}) }}",
+    "impl S {{ fn m(self: S) -> int32 {{ {L} }} }}\nfn main() {{ () }}", "impl Tr for S {{ fn m(self: S) -> int32 {{ f({L}) }} }}\nfn main() {{ () }}",
+]
+LIT_KINDS = [
+    ("integer", "918273", r'EInt \{ value: "918273"'), ("suffixed integer", "918273i64", r'EInt64 \{ value: "918273"'), ("unsigned", "255u8", r'EUInt8 \{ value: "255"'),
+    ("float", "7.25", r'EFloat \{ value: 7\.25'), ("suffixed float", "7.25f32", r'EFloat32 \{ value: "7\.25"'), ("bool", "true", r"EBool \{ value: true"),
+    ("string", '"QZ1x"', r'EString \{ value: "QZ1x"'), ("string with escapes", '"QZ\\n\\"2"', r'EString \{ value: "QZ\\n\\"2"'),
+    ("multi-line string", "\\\\QZ3a\n        \\\\QZ3b\n    ", r'EString \{ value: "QZ3a\\nQZ3b"'),
+    ("negative integer", "-918273", r'EInt \{ value: "918273"'),
+]
+
+
+def literal_positions(run, wits):
+    """every kind of literal in every expression position: if the position parses with the simplest literal, it parses with
+    every literal, and the tree holds the value written, once per occurrence"""
+    refs = vlib.run_harness("parse-ast", [{"text": p_.format(L="4321")} for p_ in LIT_POSITIONS], shards=vlib.NCPU)
+    ok_pos = [p_ for p_, r in zip(LIT_POSITIONS, refs) if r.get("ok")]
+    cases = [(p_, k) for p_ in ok_pos for k in LIT_KINDS]
+    res = vlib.run_harness("parse-ast", [{"text": p_.format(L=k[1])} for p_, k in cases], shards=vlib.NCPU)
+    st = {"positions": len(LIT_POSITIONS), "positions_parsing_with_a_plain_literal": len(ok_pos), "cells": len(cases), "cells_ok": 0}
+    for (p_, (kind, text, pat)), r in zip(cases, res):
+        want = p_.count("{L}")
+        src = p_.format(L=text)
+        if not r.get("ok"):
+            wits.append({"kind": "a %s literal is rejected in a position where an integer literal is accepted" % kind, "text": src, "impl": {k_: v for k_, v in r.items() if k_ != "ast_dbg"}})
+        elif len(re.findall(pat, r["ast_dbg"])) != want:
+            wits.append({"kind": "a %s literal does not reach the tree with the value written (%d of %d occurrences)" % (kind, len(re.findall(pat, r["ast_dbg"])), want), "text": src})
+        else:
+            st["cells_ok"] += 1
+    return st
 
 
 def literals(run, rng, wits):
